@@ -198,6 +198,8 @@ where
     /// assert!(a.out_degree() == 2);
     /// ```
     pub fn out_degree(&self) -> usize {
+        #[cfg(gdsl_verif)]
+        crate::verif_hook::lock_point(&self.inner.2, false);
         self.inner.2.read().unwrap().len_outbound()
     }
 
@@ -218,6 +220,8 @@ where
     ///
     /// assert!(a.in_degree() == 2);
     pub fn in_degree(&self) -> usize {
+        #[cfg(gdsl_verif)]
+        crate::verif_hook::lock_point(&self.inner.2, false);
         self.inner.2.read().unwrap().len_inbound()
     }
 
@@ -239,11 +243,15 @@ where
     /// assert!(n1.is_connected(n2.key()));
     /// ```
     pub fn connect(&self, other: &Self, value: E) {
+        #[cfg(gdsl_verif)]
+        crate::verif_hook::lock_point(&self.inner.2, true);
         self.inner
             .2
             .write()
             .unwrap()
             .push_outbound((other.clone(), value.clone()));
+        #[cfg(gdsl_verif)]
+        crate::verif_hook::lock_point(&other.inner.2, true);
         other
             .inner
             .2
@@ -312,9 +320,13 @@ where
             Some(other) => {
                 // Release this node's own borrow before touching `other`,
                 // which is the same node when the edge is a self-loop.
+                #[cfg(gdsl_verif)]
+                crate::verif_hook::lock_point(&self.inner.2, true);
                 let removed = self.inner.2.write().unwrap().remove_outbound(other.key());
                 match removed {
                     Ok(edge) => {
+                        #[cfg(gdsl_verif)]
+                        crate::verif_hook::lock_point(&other.inner.2, true);
                         other.inner.2.write().unwrap().remove_inbound(self.key())?;
                         Ok(edge)
                     }
@@ -354,6 +366,8 @@ where
     /// ```
     pub fn isolate(&self) {
         for Edge(_, v, _) in self.iter_out() {
+            #[cfg(gdsl_verif)]
+            crate::verif_hook::lock_point(&v.inner.2, true);
             v.inner
                 .2
                 .write()
@@ -362,6 +376,8 @@ where
                 .unwrap();
         }
         for Edge(v, _, _) in self.iter_in() {
+            #[cfg(gdsl_verif)]
+            crate::verif_hook::lock_point(&v.inner.2, true);
             v.inner
                 .2
                 .write()
@@ -369,7 +385,11 @@ where
                 .remove_outbound(self.key())
                 .unwrap();
         }
+        #[cfg(gdsl_verif)]
+        crate::verif_hook::lock_point(&self.inner.2, true);
         self.inner.2.write().unwrap().clear_outbound();
+        #[cfg(gdsl_verif)]
+        crate::verif_hook::lock_point(&self.inner.2, true);
         self.inner.2.write().unwrap().clear_inbound();
     }
 
@@ -390,6 +410,8 @@ where
     /// assert!(!n2.is_root());
     /// ```
     pub fn is_root(&self) -> bool {
+        #[cfg(gdsl_verif)]
+        crate::verif_hook::lock_point(&self.inner.2, false);
         self.inner.2.read().unwrap().len_inbound() == 0
     }
 
@@ -410,6 +432,8 @@ where
     /// assert!(n2.is_leaf());
     /// ```
     pub fn is_leaf(&self) -> bool {
+        #[cfg(gdsl_verif)]
+        crate::verif_hook::lock_point(&self.inner.2, false);
         self.inner.2.read().unwrap().len_outbound() == 0
     }
 
@@ -475,6 +499,8 @@ where
     /// assert!(n1.find_outbound(&4).is_none());
     /// ```
     pub fn find_outbound(&self, other: &K) -> Option<Node<K, N, E>> {
+        #[cfg(gdsl_verif)]
+        crate::verif_hook::lock_point(&self.inner.2, false);
         let edge = self.inner.2.read().unwrap();
         let edge = edge.find_outbound(other);
         edge.map(|edge| edge.0.upgrade().unwrap())
@@ -501,6 +527,8 @@ where
     /// assert!(n1.find_inbound(&4).is_none());
     /// ```
     pub fn find_inbound(&self, other: &K) -> Option<Node<K, N, E>> {
+        #[cfg(gdsl_verif)]
+        crate::verif_hook::lock_point(&self.inner.2, false);
         let edge = self.inner.2.read().unwrap();
         let edge = edge.find_inbound(other);
         edge.map(|edge| edge.0.upgrade().unwrap())
@@ -713,6 +741,8 @@ where
 
     /// Return's the node's size in bytes.
     pub fn sizeof(&self) -> usize {
+        #[cfg(gdsl_verif)]
+        crate::verif_hook::lock_point(&self.inner.2, false);
         std::mem::size_of::<Node<K, N, E>>()
             + std::mem::size_of::<K>()
             + std::mem::size_of::<N>()
@@ -793,6 +823,8 @@ where
     type Item = Edge<K, N, E>;
 
     fn next(&mut self) -> Option<Self::Item> {
+        #[cfg(gdsl_verif)]
+        crate::verif_hook::lock_point(&self.node.inner.2, false);
         match self
             .node
             .inner
@@ -833,6 +865,8 @@ where
     type Item = Edge<K, N, E>;
 
     fn next(&mut self) -> Option<Self::Item> {
+        #[cfg(gdsl_verif)]
+        crate::verif_hook::lock_point(&self.node.inner.2, false);
         match self.node.inner.2.read().unwrap().get_inbound(self.position) {
             Some(current) => {
                 self.position += 1;
